@@ -127,8 +127,8 @@ MUTANTS = [
     ('C12', 'digest-does-not-cover-key', [R('lark/lark.py', "sha256_digest(header[0] + payload).encode('utf8') == header[2]", "sha256_digest(payload).encode('utf8') == header[2]"),
                                         R('lark/lark.py', "sha256_digest(key + payload).encode('utf8')", "sha256_digest(payload).encode('utf8')")]),
     ('C12', 'source-path-not-restored', [R('lark/lark.py', '                    self.source_path = old_source_path\n', '')]),
-    ('C12', 'import-base-not-in-key', [R('lark/lark.py', "sys.version_info[:2], str(relative_import_base_path(self.source_path))))", "sys.version_info[:2]))")]),
-    ('C12', 'key-parts-concatenated-again (revert of 8a128e0)', [R('lark/lark.py', "s = repr((grammar, options_key, __version__, sys.version_info[:2], str(relative_import_base_path(self.source_path))))", "s = grammar + ''.join(k + v for k, v in options_key) + __version__ + str(sys.version_info[:2]) + str(relative_import_base_path(self.source_path))")]),
+    ('C12', 'import-base-not-in-key', [R('lark/lark.py', "s = repr((grammar, options_key, __version__, sys.version_info[:2], import_base))", "s = repr((grammar, options_key, __version__, sys.version_info[:2]))")]),
+    ('C12', 'key-parts-concatenated-again (revert of 8a128e0)', [R('lark/lark.py', "s = repr((grammar, options_key, __version__, sys.version_info[:2], import_base))", "s = grammar + ''.join(k + v for k, v in options_key) + __version__ + str(sys.version_info[:2]) + import_base")]),
     ('C12', 'always-accept-not-in-key (revert of 40e3147)', [R('lark/lark.py', "                if self.options.postlex is not None:\n                    # The postlexer itself", "                if False:\n                    # The postlexer itself")]),
     ('C12', 'key-computation-fails-on-int-file-name (revert of 558f92c)', [R('lark/lark.py', "                except TypeError:\n                    # e.g. an unnamed temporary file", "                except ZeroDivisionError:\n                    # e.g. an unnamed temporary file")]),
     ('C12', 'pickling-failure-escapes-the-constructor (revert of 90c6019)', [R('lark/lark.py', "            except Exception:\n                # Not everything can be pickled", "            except ZeroDivisionError:\n                # Not everything can be pickled")]),
